@@ -23,7 +23,7 @@ RULE = ("2..5 real nodes per scenario; one node under test runs a seeded history
         "outcome class per call, fault plan).")
 REQUIRED = {"invariant_at_return": 3000, "role_changes": 300, "exception_returns": 20,
             "failed_tx_returns": 50}
-BUDGET = {"quick": 150, "thorough": 600}
+BUDGET = {"quick": 480, "thorough": 900}
 
 
 def gen_pairs(ctx):
